@@ -64,6 +64,8 @@ var go2coqTargets = []string{
 	"Conn.h_JOIN", "Conn.h_MODE", "Conn.h_311", "Conn.h_352", "Conn.h_353",
 	// stage 3: package state, the nick mode parser
 	"state:nick.parseModes",
+	// stage 4: the channel mode parser
+	"state:channel.parseModes",
 }
 
 // fuel override per loop ("func#k", k-th condition loop of the function, from 0); the
@@ -610,6 +612,7 @@ type ftrans struct {
 	resStruct  *types.Named // result type *T
 	section    *bool        // the Tracker section has been opened
 	pkgs       map[string]*pkgInfo
+	refOf      map[*gvar]refInfo
 	inMapRange map[*gvar]bool
 	rangeKey   map[*gvar]types.Object
 	roots      []rootInfo
@@ -631,7 +634,7 @@ var coqReserved = func() map[string]bool {
 		res bytes Ok Panic bind len llen beq slice_to slice_from slice byte_at elem_at elems_from has_prefix has_suffix
 		index last_index contains split2 split_byte fields trim trim_space to_upper to_lower join set_elem
 		replace_pairs length app negb andb orb true false nat N Z bool list unit tt O S fst snd nil cons
-		fuel l p out tagmap tags_set go_map_set Some None option ST trk s_ r_ p_ go_is_some
+		fuel l p out tagmap tags_set go_map_set Some None option ST trk s_ r_ p_ v_ go_is_some go_strconv_Atoi
 		kmap km_empty km_set km_get km_filter km_keys km_size isort c_ go_nbytes b64_encode b64_decode`) {
 		m[w] = true
 	}
@@ -889,6 +892,13 @@ func (f *ftrans) scan(fd *ast.FuncDecl) (in map[string]gtyp, out map[string]bool
 							}
 						}
 					}
+				}
+			}
+		case *ast.IndexExpr:
+			if md := goType(f.info.TypeOf(x.X)).dyn(); md != nil && md.kind == kRefMap && md.valTy.dyn().kind == kSPtr {
+				if p, ok := f.fieldPath(x.X); ok {
+					addIn(p, f.info.TypeOf(x.X))
+					written(p)
 				}
 			}
 		case *ast.SelectorExpr:
@@ -1303,6 +1313,9 @@ func (f *ftrans) expr(e ast.Expr) ex {
 	case *ast.BinaryExpr:
 		return f.binary(x)
 	case *ast.IndexExpr:
+		if r, ok := f.refMapGet(x); ok {
+			return r
+		}
 		b, i := f.expr(x.X), f.expr(x.Index)
 		pre := cat(b.pre, i.pre)
 		t := f.tmp()
@@ -1761,6 +1774,19 @@ func (f *ftrans) stdcall(pkg, name string, x *ast.CallExpr) ex {
 		f.clocks++
 		return ex{t: fmt.Sprintf("now%d", f.clocks), ty: tInt}
 	}
+	if pkg == "strconv" && name == "Atoi" && len(x.Args) == 1 {
+		// not transliterated: a variable of the section (instantiated with the model's atoi)
+		if !f.emitted["$atoi"] {
+			f.emitted["$atoi"] = true
+			f.openSection()
+			*f.extra = append(*f.extra, "(* strconv.Atoi: (value, err) — a variable, as every stdlib function that is not transliterated *)\nVariable go_strconv_Atoi : bytes -> Z * bool.\n")
+		}
+		a := f.expr(x.Args[0])
+		if a.ty != tStr {
+			failf("strconv.Atoi of a %s", a.ty.coq())
+		}
+		return ex{pre: a.pre, t: "go_strconv_Atoi " + arg(a), p: 1, ty: tTuple, tys: []gtyp{tInt, tErr}}
+	}
 	if pkg != "strings" {
 		failf("call %s.%s", pkg, name)
 	}
@@ -2042,6 +2068,24 @@ func (f *ftrans) assign(lhsE, rhsE []ast.Expr, tok token.Token, c ctx, k func() 
 				}
 			}
 		}
+		// p := m[k] for a store of value-modelled objects: p stays linked to the entry
+		if ix, ok := rhsE[0].(*ast.IndexExpr); ok && define {
+			if md := goType(f.info.TypeOf(ix.X)).dyn(); md != nil && md.kind == kRefMap && md.valTy.dyn().kind == kSPtr {
+				kid, isId := ix.Index.(*ast.Ident)
+				if !isId {
+					failf("store lookup with a key that is not a variable")
+				}
+				v := f.expr(rhsE[0])
+				m := f.lhs(ix.X, false)
+				kv := f.expr(kid)
+				l := f.lhs(lhsE[0], true)
+				if l.blank || m.v == nil {
+					failf("assignment from %s", exprText(f.pi, rhsE[0]))
+				}
+				f.refOf[l.v] = refInfo{m.v, kv.t}
+				return withPre(v.pre, f.bindAll([]lhsRef{l}, []ex{v}, k))
+			}
+		}
 		// p.F = v through a value-modelled pointer
 		if base, d, i, ok := f.valueField(lhsE[0]); ok && tok == token.ASSIGN {
 			v := f.expr(rhsE[0])
@@ -2050,7 +2094,15 @@ func (f *ftrans) assign(lhsE, rhsE []ast.Expr, tok token.Token, c ctx, k func() 
 				failf("assignment to %s", exprText(f.pi, lhsE[0]))
 			}
 			f.ptrWriteOK(base, c.cont != nil)
-			return withPre(v.pre, nBind{name: bl.v.name, mterm: d.base + "_set_" + d.fields[i] + " " + bl.v.name + " " + arg(v), body: k()})
+			body := k
+			if ref, isRef := f.refOf[bl.v]; isRef {
+				// ... and through it to the store entry it came from
+				sd := ref.m.ty.dyn()
+				body = func() node {
+					return nBind{name: ref.m.name, mterm: "(match " + bl.v.name + " with Some v_ => Ok (" + sd.base + "_set " + ref.m.name + " " + ref.key + " v_) | None => Panic end)", body: k()}
+				}
+			}
+			return withPre(v.pre, nBind{name: bl.v.name, mterm: d.base + "_set_" + d.fields[i] + " " + bl.v.name + " " + arg(v), body: body()})
 		}
 		// x[i] = v on a map or a []string (index operands and v first, then the assignment)
 		if ix, ok := lhsE[0].(*ast.IndexExpr); ok && tok == token.ASSIGN {
@@ -2091,6 +2143,75 @@ func (f *ftrans) assign(lhsE, rhsE []ast.Expr, tok token.Token, c ctx, k func() 
 		v := f.expr(&ast.BinaryExpr{X: lhsE[0], Op: op, Y: rhsE[0]})
 		l := f.lhs(lhsE[0], false)
 		return withPre(v.pre, f.bindAll([]lhsRef{l}, []ex{v}, k))
+	}
+	// several left-hand sides, one of them p.F: the values first, then one assignment after the other
+	if len(lhsE) > 1 {
+		setter := false
+		for _, l := range lhsE {
+			if _, _, _, ok := f.valueField(l); ok {
+				setter = true
+			}
+		}
+		if setter {
+			var pre []nBind
+			var vals []ex
+			if len(rhsE) == 1 {
+				v := f.expr(rhsE[0])
+				if v.ty != tTuple || len(v.tys) != len(lhsE) {
+					failf("multi-value assignment from %s", exprText(f.pi, rhsE[0]))
+				}
+				var pat []string
+				for _, ty := range v.tys {
+					t := f.tmp()
+					pat = append(pat, t)
+					vals = append(vals, ex{t: t, ty: ty})
+				}
+				pre = append(v.pre, nBind{pat: pat, mterm: "Ok " + atom(v.t)})
+			} else {
+				for _, e := range rhsE {
+					v := f.expr(e)
+					pre = append(pre, v.pre...)
+					t := f.tmp()
+					pre = append(pre, nBind{name: t, mterm: "Ok " + arg(v)})
+					vals = append(vals, ex{t: t, ty: v.ty})
+				}
+			}
+			var step func(i int) node
+			step = func(i int) node {
+				if i == len(lhsE) {
+					return k()
+				}
+				if id, ok := lhsE[i].(*ast.Ident); ok && id.Name == "_" {
+					return step(i + 1)
+				}
+				sid := ast.NewIdent("$val")
+				f.synth[sid] = vals[i]
+				return f.assign([]ast.Expr{lhsE[i]}, []ast.Expr{sid}, token.ASSIGN, c, func() node { return step(i + 1) })
+			}
+			return withPre(pre, step(0))
+		}
+	}
+	if len(rhsE) == 1 && len(lhsE) == 2 {
+		// v, ok := m[k] on an abstract store
+		if ix, isIx := rhsE[0].(*ast.IndexExpr); isIx {
+			if r, ok := f.refMapGet(ix); ok {
+				t := f.tmp()
+				l0, l1 := f.lhs(lhsE[0], define), f.lhs(lhsE[1], define)
+				var pat []string
+				for _, l := range []lhsRef{l0, l1} {
+					if l.blank {
+						pat = append(pat, "_")
+					} else {
+						pat = append(pat, l.v.name)
+					}
+				}
+				if (!l0.blank && l0.v.ty != r.ty) || (!l1.blank && l1.v.ty != tBool) {
+					failf("comma-ok lookup: type mismatch")
+				}
+				return withPre(r.pre, nSeq{pat: []string{t}, ty: r.ty.coq(), val: nLeaf{r.t},
+					body: nSeq{pat: pat, val: nLeaf{"(" + t + ", go_is_some " + t + ")"}, body: k()}})
+			}
+		}
 	}
 	if len(rhsE) == 1 && len(lhsE) > 1 {
 		// a, b := f()
@@ -2240,6 +2361,13 @@ func (f *ftrans) assigned(nodes ...ast.Node) []*gvar {
 				set[v] = v.owner.Pos() + token.Pos(v.idx)
 			} else if base, _, _, ok := f.valueField(x); ok {
 				mark(base) // p.F = v re-binds p
+				if id, isId := base.(*ast.Ident); isId {
+					if bv, known := f.vars[f.info.Uses[id]]; known {
+						if ref, isRef := f.refOf[bv]; isRef {
+							set[ref.m] = token.Pos(1<<30) + token.Pos(len(set)) // ... and the store entry p came from
+						}
+					}
+				}
 			}
 		case *ast.IndexExpr:
 			mark(x.X) // x[i] = v assigns x
@@ -2294,6 +2422,10 @@ func (f *ftrans) assigned(nodes ...ast.Node) []*gvar {
 				}
 				if f.isPkgCall(s, "sort") && len(s.Args) == 1 {
 					mark(s.Args[0])
+				}
+			case *ast.IndexExpr:
+				if md := goType(f.info.TypeOf(s.X)).dyn(); md != nil && md.kind == kRefMap && md.valTy.dyn().kind == kSPtr {
+					mark(s.X) // an entry of the store may be written through the pointer read here
 				}
 			case *ast.FuncLit:
 				failf("function literal")
@@ -3046,7 +3178,7 @@ func go2coq(pkgs map[string]*pkgInfo) string {
 			}()
 			f := &ftrans{pi: pi, info: pi.pkg.TypesInfo, sigs: sigs, vars: map[types.Object]*gvar{},
 				hid: map[string]*gvar{}, used: map[string]bool{}, synth: map[*ast.Ident]ex{},
-				structs: map[types.Object]*structVar{}, extra: &extra, emitted: emitted, section: &section, inMapRange: map[*gvar]bool{}, rangeKey: map[*gvar]types.Object{}, pkgs: pkgs}
+				structs: map[types.Object]*structVar{}, extra: &extra, emitted: emitted, section: &section, inMapRange: map[*gvar]bool{}, rangeKey: map[*gvar]types.Object{}, pkgs: pkgs, refOf: map[*gvar]refInfo{}}
 			txt := f.function(name, fd)
 			for _, d := range extra {
 				b.WriteString(d + "\n")
